@@ -86,10 +86,44 @@ Definition set_default_responders (mm : method_map) : method_map :=
 
 (* ---- sinks and static routes *)
 
-(* a sink prefix pattern, as far as the executable instance goes: re.compile(p).match(path)
-   for p = re.escape(pre) or re.escape(pre) + '(?P<name>[^/]+)' + re.escape(post),
-   post empty or starting with '/' *)
-Inductive spat := SPrefix (pre : str) | SGroup (pre : str) (name : str) (post : str).
+(* a sink prefix pattern: re.compile(p).match(path) for p in a small regular-expression
+   language — literals, the classes \d [a-z] [^/] . with quantifier one / + / * (greedy),
+   named groups, optional groups (?:r)?, alternation (?:a|b), sequence.  The result is
+   m.groupdict(): EVERY named group of the pattern, None for those that did not take part. *)
+Inductive cls := CDigit | CLower | CNotSlash | CAny.
+Inductive quant := QOne | QPlus | QStar.
+Inductive rx :=
+| RLit (s : str)
+| RCls (c : cls) (q : quant)
+| RNamed (name : str) (r : rx)
+| ROpt (r : rx)
+| RAlt (a b : rx)
+| RSeq (a b : rx).
+
+Definition cls_ok (c : cls) (ch : N) : bool :=
+  match c with
+  | CDigit => isdigit ch
+  | CLower => (97 <=? ch) && (ch <=? 122)
+  | CNotSlash => negb (ch =? 47)
+  | CAny => negb (ch =? 10)
+  end.
+
+Definition sgroups := list (str * option str).
+
+Fixpoint gset (e : sgroups) (name : str) (v : option str) : sgroups :=
+  match e with
+  | [] => [(name, v)]
+  | (k, x) :: tl => if str_eqb name k then (k, v) :: tl else (k, x) :: gset tl name v
+  end.
+
+Fixpoint rx_names (r : rx) : list str :=
+  match r with
+  | RLit _ | RCls _ _ => []
+  | RNamed n r' => n :: rx_names r'
+  | ROpt r' => rx_names r'
+  | RAlt a b => rx_names a ++ rx_names b
+  | RSeq a b => rx_names a ++ rx_names b
+  end.
 
 Fixpoint drop_prefix (p s : str) : option str :=
   match p, s with
@@ -98,27 +132,34 @@ Fixpoint drop_prefix (p s : str) : option str :=
   | _ :: _, [] => None
   end.
 
-Fixpoint span_nonslash (s : str) : str * str :=
+(* c* greedy with backtracking, then the continuation *)
+Fixpoint greedy (c : cls) (s : str) (e : sgroups) (k : str -> sgroups -> option sgroups) {struct s}
+  : option sgroups :=
   match s with
-  | [] => ([], [])
-  | c :: tl => if c =? 47 then ([], s) else let '(a, b) := span_nonslash tl in (c :: a, b)
+  | ch :: s' =>
+    if cls_ok c ch then match greedy c s' e k with Some x => Some x | None => k s e end
+    else k s e
+  | [] => k s e
   end.
 
-(* m.groupdict() of a match, None when there is no match.  '[^/]' also matches LF. *)
-Definition spat_match (p : spat) (path : str) : option groups :=
-  match p with
-  | SPrefix pre => match drop_prefix pre path with Some _ => Some [] | None => None end
-  | SGroup pre name post =>
-    match drop_prefix pre path with
-    | None => None
-    | Some r =>
-      let '(g, r') := span_nonslash r in
-      match g with
-      | [] => None
-      | _ :: _ => match drop_prefix post r' with Some _ => Some [(name, g)] | None => None end
-      end
-    end
+(* backtracking matcher in continuation-passing style; first success in Python's order *)
+Fixpoint rmatch (r : rx) (s : str) (e : sgroups) (k : str -> sgroups -> option sgroups) {struct r}
+  : option sgroups :=
+  match r with
+  | RLit l => match drop_prefix l s with Some s' => k s' e | None => None end
+  | RCls c QOne => match s with ch :: s' => if cls_ok c ch then k s' e else None | [] => None end
+  | RCls c QStar => greedy c s e k
+  | RCls c QPlus =>
+    match s with ch :: s' => if cls_ok c ch then greedy c s' e k else None | [] => None end
+  | RNamed n r' =>
+    rmatch r' s e (fun s' e' => k s' (gset e' n (Some (firstn (length s - length s') s))))
+  | ROpt r' => match rmatch r' s e k with Some x => Some x | None => k s e end
+  | RAlt a b => match rmatch a s e k with Some x => Some x | None => rmatch b s e k end
+  | RSeq a b => rmatch a s e (fun s' e' => rmatch b s' e' k)
   end.
+
+Definition spat_match (p : rx) (path : str) : option sgroups :=
+  rmatch p path (map (fun n => (n, None)) (rx_names p)) (fun _ e => Some e).
 
 (* StaticRoute: prefix as given, has fallback_filename *)
 Record sroute := { sr_prefix : str; sr_fallback : bool }.
@@ -131,7 +172,7 @@ Definition static_match (s : sroute) (path : str) : bool :=
   startswith path p || (sr_fallback s && str_eqb path (all_but_last p)).
 
 Inductive fallback :=
-| FSink (id : N) (p : spat)
+| FSink (id : N) (p : rx)
 | FStatic (id : N) (s : sroute).
 
 (* ---- the app *)
@@ -146,7 +187,7 @@ Definition app0 (sbs : bool) : app :=
 
 Inductive aop :=
 | AddRoute (tpl : str) (rid : N) (r : resource) (suffix : option str)
-| AddSink (id : N) (p : spat)
+| AddSink (id : N) (p : rx)
 | AddStatic (id : N) (s : sroute).
 
 Inductive ares := AOk | AErrValue | AErrSuffix | AErrRoute (e : err).
@@ -202,7 +243,7 @@ Inductive outcome :=
 | OOptions (allowed : list str)                 (* default OPTIONS responder: 200 + Allow *)
 | O405 (allowed : list str)                     (* HTTPMethodNotAllowed(allowed) *)
 | O400                                          (* meta method / method outside COMBINED_METHODS *)
-| OSink (id : N) (kw : groups)
+| OSink (id : N) (kw : sgroups)                  (* the sink runs with m.groupdict() as kwargs *)
 | OStatic (id : N)
 | O404
 | OBroken.                                      (* a matched route without a method map: unreachable *)
